@@ -1,4 +1,23 @@
 import Martian.Util
+import Martian.Drv.C01
+import Martian.Drv.C02
+import Martian.Drv.C03
+import Martian.Drv.C04
+import Martian.Drv.C05
+import Martian.Drv.C06
+import Martian.Drv.C07
+import Martian.Drv.C08
+import Martian.Drv.C09
+import Martian.Drv.C10
+import Martian.Drv.C11
+import Martian.Drv.C12
+import Martian.Drv.C13
+import Martian.Drv.C14
+import Martian.Drv.C15
+import Martian.Drv.C16
+import Martian.Drv.C17
+import Martian.Drv.C18
+import Martian.Drv.C19
 import Martian.Drv.C20
 open Martian
 
@@ -20,5 +39,24 @@ def main (args : List String) : IO UInt32 := do
   let stdin ← IO.getStdin
   let stdout ← IO.getStdout
   match args with
-  | ["C20"] => loop stdin stdout () Drv.C20.step (); return 0
+  | ["C01"] => loop stdin stdout Drv.C01.init Drv.C01.step Drv.C01.init; return 0
+  | ["C02"] => loop stdin stdout Drv.C02.init Drv.C02.step Drv.C02.init; return 0
+  | ["C03"] => loop stdin stdout Drv.C03.init Drv.C03.step Drv.C03.init; return 0
+  | ["C04"] => loop stdin stdout Drv.C04.init Drv.C04.step Drv.C04.init; return 0
+  | ["C05"] => loop stdin stdout Drv.C05.init Drv.C05.step Drv.C05.init; return 0
+  | ["C06"] => loop stdin stdout Drv.C06.init Drv.C06.step Drv.C06.init; return 0
+  | ["C07"] => loop stdin stdout Drv.C07.init Drv.C07.step Drv.C07.init; return 0
+  | ["C08"] => loop stdin stdout Drv.C08.init Drv.C08.step Drv.C08.init; return 0
+  | ["C09"] => loop stdin stdout Drv.C09.init Drv.C09.step Drv.C09.init; return 0
+  | ["C10"] => loop stdin stdout Drv.C10.init Drv.C10.step Drv.C10.init; return 0
+  | ["C11"] => loop stdin stdout Drv.C11.init Drv.C11.step Drv.C11.init; return 0
+  | ["C12"] => loop stdin stdout Drv.C12.init Drv.C12.step Drv.C12.init; return 0
+  | ["C13"] => loop stdin stdout Drv.C13.init Drv.C13.step Drv.C13.init; return 0
+  | ["C14"] => loop stdin stdout Drv.C14.init Drv.C14.step Drv.C14.init; return 0
+  | ["C15"] => loop stdin stdout Drv.C15.init Drv.C15.step Drv.C15.init; return 0
+  | ["C16"] => loop stdin stdout Drv.C16.init Drv.C16.step Drv.C16.init; return 0
+  | ["C17"] => loop stdin stdout Drv.C17.init Drv.C17.step Drv.C17.init; return 0
+  | ["C18"] => loop stdin stdout Drv.C18.init Drv.C18.step Drv.C18.init; return 0
+  | ["C19"] => loop stdin stdout Drv.C19.init Drv.C19.step Drv.C19.init; return 0
+  | ["C20"] => loop stdin stdout Drv.C20.init Drv.C20.step Drv.C20.init; return 0
   | _ => IO.eprintln "usage: driver <ID> < ops.txt"; return 2
